@@ -27,6 +27,9 @@ package webrtc
 //       exchange as the answerer, make the peer `unclassified` until its next completion as
 //       offerer; only (A) and (B) apply meanwhile.  A fire the harness cannot explain is only
 //       counted.
+// Fires on a peer that received a call while its queue was still busy (possible only for the
+// parked answerer, or inside a whole-exchange op) are exempt from (A) and (B) until that peer's
+// queue is next seen quiet: the statement promises nothing when its precondition does not hold.
 
 import (
 	"fmt"
@@ -55,9 +58,10 @@ type vfC04Case struct {
 }
 
 type vfC04Fire struct {
-	at     int64
-	state  SignalingState
-	closed bool
+	at      int64
+	state   SignalingState
+	closed  bool
+	tainted bool // a call was issued on this peer while its queue was busy: the statement's precondition does not hold
 }
 
 type vfC04Peer struct {
@@ -65,6 +69,7 @@ type vfC04Peer struct {
 	name        string
 	senders     []*RTPSender
 	closeCalled atomic.Bool
+	tainted     atomic.Bool
 	mu          sync.Mutex
 	fires       []vfC04Fire
 
@@ -130,7 +135,10 @@ func vfC04Quiet(pc *PeerConnection) bool {
 }
 
 // vfC04Drain waits until the peer's queued work (including what that work queues) is finished.
-func vfC04Drain(p *vfC04Peer) (quiet bool, timedOut bool) {
+func vfC04Drain(p *vfC04Peer, maxWait time.Duration) (quiet bool, timedOut bool) {
+	if vfC04Quiet(p.pc) {
+		return true, false
+	}
 	done := make(chan bool, 1)
 	go func() {
 		for i := 0; i < 400; i++ {
@@ -146,7 +154,7 @@ func vfC04Drain(p *vfC04Peer) (quiet bool, timedOut bool) {
 	select {
 	case q := <-done:
 		return q, false
-	case <-time.After(20 * time.Second):
+	case <-time.After(maxWait):
 		return false, true
 	}
 }
@@ -170,7 +178,7 @@ func vfC04Run(v *vfT, c vfC04Case) {
 		p := &vfC04Peer{pc: pc, name: string(rune('A' + i))}
 		ps[i] = p
 		pc.OnNegotiationNeeded(func() {
-			f := vfC04Fire{at: clock.Add(1), state: pc.SignalingState(), closed: p.closeCalled.Load()}
+			f := vfC04Fire{at: clock.Add(1), state: pc.SignalingState(), closed: p.closeCalled.Load(), tainted: p.tainted.Load()}
 			p.mu.Lock()
 			p.fires = append(p.fires, f)
 			p.mu.Unlock()
@@ -192,6 +200,15 @@ func vfC04Run(v *vfT, c vfC04Case) {
 		p.changeSeq++
 		p.lastChange = what
 	}
+	// touch is called just before an API call on p: if p's queue is still busy the statement's
+	// precondition ("queued work finishes before the next call") does not hold for that call, and
+	// whatever fires on p until its queue is next seen quiet is exempt from (A) and (B).
+	touch := func(p *vfC04Peer) {
+		if !vfC04Quiet(p.pc) {
+			p.tainted.Store(true)
+			v.Label("call-while-queue-busy(fires-exempt-until-next-quiet)")
+		}
+	}
 	// one step of the exchange; returns false if the step failed (exchange abandoned)
 	step := func(initiator int) bool {
 		if exI < 0 {
@@ -201,6 +218,11 @@ func vfC04Run(v *vfT, c vfC04Case) {
 		if I.closeCalled.Load() || R.closeCalled.Load() {
 			exI = -1
 			return false
+		}
+		if exPhase >= 2 && exPhase <= 4 {
+			touch(R)
+		} else {
+			touch(I)
 		}
 		var err error
 		switch exPhase {
@@ -301,6 +323,9 @@ func vfC04Run(v *vfT, c vfC04Case) {
 		p := ps[x]
 		unstable := ps[0].pc.SignalingState() != SignalingStateStable || ps[1].pc.SignalingState() != SignalingStateStable
 		skipped := false
+		if op.K != "step" && op.K != "exchange" && !p.closeCalled.Load() {
+			touch(p)
+		}
 		switch op.K {
 		case "addTrack":
 			if p.closeCalled.Load() || p.nTracks >= 4 {
@@ -390,6 +415,7 @@ func vfC04Run(v *vfT, c vfC04Case) {
 				skipped = true
 				break
 			}
+			v.Logf("C04 close %s: exI=%d exPhase=%d parked=%v/%v quiet=%v state=%s", p.name, exI, exPhase, ps[0].parked, ps[1].parked, vfC04Quiet(p.pc), p.pc.SignalingState())
 			p.closeCalled.Store(true)
 			_ = p.pc.Close()
 		default:
@@ -406,11 +432,19 @@ func vfC04Run(v *vfT, c vfC04Case) {
 		allQuiet := true
 		for _, q := range ps {
 			if !drainable(q) {
-				allQuiet = false
-				v.Label("drain-skipped:answerer-parked-on-transport-start")
+				// usually parked in a transport start; give ordinary work a moment, conclude nothing otherwise
+				if quiet, _ := vfC04Drain(q, 30*time.Millisecond); quiet {
+					q.tainted.Store(false)
+				} else {
+					allQuiet = false
+					v.Label("drain-skipped:answerer-parked-on-transport-start")
+				}
 				continue
 			}
-			quiet, timedOut := vfC04Drain(q)
+			quiet, timedOut := vfC04Drain(q, 20*time.Second)
+			if quiet {
+				q.tainted.Store(false)
+			}
 			if timedOut {
 				v.Logf("C04 drain timeout on %s after op %d of %s\n%s", q.name, i, v.caseJSON, vfC04Stacks())
 				// nothing is concluded from a timeout
@@ -431,6 +465,9 @@ func vfC04Run(v *vfT, c vfC04Case) {
 			fires := append([]vfC04Fire{}, q.fires...)
 			q.mu.Unlock()
 			for _, f := range fires {
+				if f.tainted {
+					continue
+				}
 				if f.closed {
 					v.Violation("C04/fired-after-close", "after op %d (%s %s): negotiationneeded was invoked on %s after Close had been called", i, op.K, p.name, q.name)
 				}
@@ -448,7 +485,7 @@ func vfC04Run(v *vfT, c vfC04Case) {
 				}
 				n := 0
 				for _, f := range fires {
-					if f.at > lo && f.at < hi {
+					if f.at > lo && f.at < hi && !f.tainted {
 						n++
 					}
 				}
